@@ -190,6 +190,8 @@ def truth(v: V) -> Optional[bool]:
     if isinstance(v, R):
         if v.kind in ("list", "dict") and "items" in v.fields:
             return bool(v.fields["items"])
+        if v.fields.get("__falsy__") == K(True):
+            return False  # an object whose class (for a class object: metaclass) defines __bool__ / __len__ and says so
         return True
     return None
 
